@@ -78,7 +78,7 @@ def run(ck):
             if r is None: continue
             seen_v.setdefault(str(r[1]), r[-1])
         for v, r in sorted(seen_v.items()):
-            ok = v in ('0', '1', 'EEAV_NO_ERROR', 'TLD_TYPE_SPECIAL') or re.fullmatch(r'-EEAV_\w+', v) is not None or re.fullmatch(r"[\w@'#\[\]]+(->|\.)type", v) is not None \
+            ok = v in ('0', '1', 'EEAV_NO_ERROR', 'TLD_TYPE_SPECIAL') or re.fullmatch(r'-EEAV_\w+', v) is not None or re.fullmatch(r"&?[\w@'#\[\]()+ ]+(->|\.)type", v) is not None \
                 or re.fullmatch(r"(is_tld|is_ascii_domain|is_ipv4|is_ipv6|is_ipaddr|is_\d+_local)#\d+'*", v) is not None or re.fullmatch(r"-?\(.+ \? -?EEAV_\w+ : -?EEAV_\w+\)", v) is not None
             if ok and v.startswith('-EEAV_') and v[1:] not in codes: ok = False
             t2.instance(f'{key}:{fn}:return@{where(r)}' if not ok else f'{key}:{fn}', ok=ok, wclass='return-value', what=f'{fn} returns {v} at {where(r)}: not a code eav_errstr can describe')
